@@ -29,6 +29,7 @@ REGISTRY = {
     "C09": ("auverif.props.c09", "run"),
     "C11": ("auverif.props.c11", "run"),
     "C19": ("auverif.props.c19", "run"),
+    "C14": ("auverif.props.c14", "run"),
 }
 
 
